@@ -375,7 +375,23 @@ func Bridge(dev Device, conn io.ReadWriteCloser) (stop func()) {
 		once.Do(func() {
 			_ = dev.Close()
 			_ = conn.Close()
-			wg.Wait()
+			// the pumps end when their reads return; a peer that no longer answers (a client whose
+			// writes are lost never confirms the channel close) must not hold the caller: after a
+			// bounded wait the connection is torn down, after another one the pumps are abandoned
+			done := make(chan struct{})
+			go func() { wg.Wait(); close(done) }()
+			select {
+			case <-done:
+				return
+			case <-time.After(2 * time.Second):
+			}
+			if sd, ok := conn.(interface{ Shutdown() }); ok {
+				sd.Shutdown()
+			}
+			select {
+			case <-done:
+			case <-time.After(2 * time.Second):
+			}
 		})
 	}
 }
